@@ -169,6 +169,11 @@ fn minimise(w: &mut World, plan: &SchedPlan, viol: &SViolation) -> (SchedPlan, S
             c.threads[t].stall_after = None;
             c.threads[t].exit_after = None;
             attempt!(c);
+            if t < cur.threads.len() && !cur.threads[t].preempt_at.is_empty() {
+                let mut c = cur.clone();
+                c.threads[t].preempt_at.clear();
+                attempt!(c);
+            }
         }
         let mut c = cur.clone();
         c.yield_mask = 0;
@@ -296,6 +301,61 @@ fn fresh_process_replay(path: &str) -> i32 {
     }
 }
 
+/// minimise a violating scenario, write its replay file and confirm it by re-execution in a fresh
+/// process (alone, then behind a growing suffix of the shard's earlier scenarios).
+#[allow(clippy::too_many_arguments)]
+fn process_violation(w: &mut World, property: &str, seed: u64, cfg: &GenCfg, replay_dir: &str, done_indices: &[u64], vidx: i64, plan: &SchedPlan, r: &SRun) -> (J, bool) {
+    let v = r.violation.clone().unwrap();
+    let ex = explicit(plan, &r.decisions);
+    // the explicit schedule must reproduce it in-process; otherwise keep the generated schedule
+    let base = if fails_same(w, &ex, &v.class()).is_some() { ex } else { plan.clone() };
+    let (minp, minv, tries) = minimise(w, &base, &v);
+    let lr = run_once(w, &minp, true);
+    let _ = std::fs::create_dir_all(replay_dir);
+    let path = format!("{}/{}-{}-{}{}.json", replay_dir, property, seed, if vidx < 0 { "selfcheck" } else { "run" }, vidx.max(0));
+    let write = |plan: &SchedPlan, prelude: &[u64], v: &SViolation, log: &[String]| {
+        let rj = replay_json(property, seed, vidx, cfg, plan, &base, prelude, v, log);
+        if let Err(e) = std::fs::write(&path, rj.pretty()) {
+            harness_error(&format!("cannot write {}: {}", path, e));
+        }
+    };
+    write(&minp, &[], &minv, &lr.log);
+    let mut reproduced = fresh_process_replay(&path) == 1;
+    let mut prelude_len = 0usize;
+    if !reproduced {
+        // the violation may depend on library state left by earlier scenarios of this process:
+        // replay the unminimised plan behind a growing suffix of the earlier scenarios
+        let prev: Vec<u64> = done_indices.iter().copied().filter(|i| (*i as i64) < vidx).collect();
+        let mut m = 0usize;
+        loop {
+            let pre: Vec<u64> = prev[prev.len() - m.min(prev.len())..].to_vec();
+            write(&base, &pre, &v, &lr.log);
+            // schedule-dependent violations under locks do not always repeat: two attempts per prelude
+            if fresh_process_replay(&path) == 1 || fresh_process_replay(&path) == 1 {
+                reproduced = true;
+                prelude_len = pre.len();
+                break;
+            }
+            if m >= prev.len() {
+                break;
+            }
+            m = if m == 0 { 1 } else { m * 2 };
+        }
+    }
+    let vj = J::obj()
+        .set("replay", J::s(&path))
+        .set("index", J::Int(vidx))
+        .set("detail", minv.to_json())
+        .set("minimise_tries", J::u(tries))
+        .set("original_threads", J::u(plan.threads.len()))
+        .set("original_ops", J::u(plan.threads.iter().map(|t| t.ops.len()).sum()))
+        .set("minimised_threads", J::u(minp.threads.len()))
+        .set("minimised_ops", J::u(minp.threads.iter().map(|t| t.ops.len()).sum()))
+        .set("prelude_scenarios_needed", J::u(prelude_len))
+        .set("reproduced_in_fresh_process", J::Bool(reproduced));
+    (vj, reproduced)
+}
+
 pub fn cmd_sched(m: &HashMap<String, String>) -> i32 {
     quiet_panics();
     let focus = m.get("focus").cloned().unwrap_or_else(|| "c20".to_string());
@@ -332,7 +392,8 @@ pub fn cmd_sched(m: &HashMap<String, String>) -> i32 {
     let mut kinds = Counters::default();
     let mut samples: Vec<J> = vec![];
     let mut done_indices: Vec<u64> = vec![];
-    let mut violation: Option<(i64, SchedPlan, SRun)> = None;
+    let mut confirmed: Option<J> = None;
+    let mut unconfirmed: Vec<J> = vec![];
 
     // ---- sequential self-check: the whole catalogue forward and in reverse on one thread
     if selfcheck {
@@ -355,8 +416,13 @@ pub fn cmd_sched(m: &HashMap<String, String>) -> i32 {
             if let Some(v) = &r.violation {
                 if known.iter().any(|k| *k == v.class()) {
                     counters.inc(&format!("known_finding_hit|{}", v.class()));
-                } else if violation.is_none() {
-                    violation = Some((-1, plan, r));
+                } else if confirmed.is_none() {
+                    let (vj, ok) = process_violation(&mut w, &property, seed, &cfg, &replay_dir, &done_indices, -1, &plan, &r);
+                    if ok {
+                        confirmed = Some(vj);
+                    } else {
+                        unconfirmed.push(vj);
+                    }
                 }
             }
         }
@@ -364,7 +430,7 @@ pub fn cmd_sched(m: &HashMap<String, String>) -> i32 {
 
     // ---- seeded scenarios of this shard
     let mut idx = shard;
-    while idx < total && violation.is_none() {
+    while idx < total && confirmed.is_none() && unconfirmed.len() < 4 {
         if let Some(d) = deadline {
             if Instant::now() >= d {
                 break;
@@ -419,7 +485,15 @@ pub fn cmd_sched(m: &HashMap<String, String>) -> i32 {
             if known.iter().any(|k| *k == v.class()) {
                 counters.inc(&format!("known_finding_hit|{}", v.class()));
             } else {
-                violation = Some((idx as i64, plan, r));
+                // confirm at once; a violation that does not repeat on re-execution is set aside and the
+                // search goes on (up to four of them), so that a reproducible one can still be found
+                let (vj, ok) = process_violation(&mut w, &property, seed, &cfg, &replay_dir, &done_indices, idx as i64, &plan, &r);
+                if ok {
+                    confirmed = Some(vj);
+                } else {
+                    counters.inc("violations_observed_but_not_reproduced");
+                    unconfirmed.push(vj);
+                }
             }
         }
         idx += of;
@@ -452,61 +526,14 @@ pub fn cmd_sched(m: &HashMap<String, String>) -> i32 {
         .set("setup_s", J::Num(setup_s));
 
     let mut code = 0;
-    if let Some((vidx, plan, r)) = violation {
-        let v = r.violation.clone().unwrap();
-        let ex = explicit(&plan, &r.decisions);
-        // the explicit schedule must reproduce it in-process; otherwise keep the generated schedule
-        let base = if fails_same(&mut w, &ex, &v.class()).is_some() { ex } else { plan.clone() };
-        let (minp, minv, tries) = minimise(&mut w, &base, &v);
-        let lr = run_once(&mut w, &minp, true);
-        let _ = std::fs::create_dir_all(&replay_dir);
-        let path = format!("{}/{}-{}-{}{}.json", replay_dir, property, seed, if vidx < 0 { "selfcheck" } else { "run" }, vidx.max(0));
-        let write = |plan: &SchedPlan, prelude: &[u64], v: &SViolation, log: &[String]| {
-            let rj = replay_json(&property, seed, vidx, &cfg, plan, &base, prelude, v, log);
-            if let Err(e) = std::fs::write(&path, rj.pretty()) {
-                harness_error(&format!("cannot write {}: {}", path, e));
-            }
-        };
-        write(&minp, &[], &minv, &lr.log);
-        let mut reproduced = fresh_process_replay(&path) == 1;
-        let mut prelude_len = 0usize;
-        if !reproduced {
-            // the violation may depend on library state left by earlier scenarios of this process:
-            // replay the unminimised plan behind a growing suffix of the earlier scenarios
-            let prev: Vec<u64> = done_indices.iter().copied().filter(|i| (*i as i64) < vidx).collect();
-            let mut m = 0usize;
-            loop {
-                let pre: Vec<u64> = prev[prev.len() - m.min(prev.len())..].to_vec();
-                write(&base, &pre, &v, &lr.log);
-                if fresh_process_replay(&path) == 1 {
-                    reproduced = true;
-                    prelude_len = pre.len();
-                    break;
-                }
-                if m >= prev.len() {
-                    break;
-                }
-                m = if m == 0 { 1 } else { m * 2 };
-            }
-        }
-        res.put(
-            "violation",
-            J::obj()
-                .set("replay", J::s(&path))
-                .set("index", J::Int(vidx))
-                .set("detail", minv.to_json())
-                .set("minimise_tries", J::u(tries))
-                .set("original_threads", J::u(plan.threads.len()))
-                .set("original_ops", J::u(plan.threads.iter().map(|t| t.ops.len()).sum()))
-                .set("minimised_threads", J::u(minp.threads.len()))
-                .set("minimised_ops", J::u(minp.threads.iter().map(|t| t.ops.len()).sum()))
-                .set("prelude_scenarios_needed", J::u(prelude_len))
-                .set("reproduced_in_fresh_process", J::Bool(reproduced)),
-        );
-        code = if reproduced { 1 } else { 2 };
-        if !reproduced {
-            res.put("harness_error", J::s("violation did not reproduce in a fresh process, even behind the full scenario history of its shard"));
-        }
+    if let Some(vj) = confirmed {
+        res.put("violation", vj);
+        code = 1;
+    } else if let Some(vj) = unconfirmed.first().cloned() {
+        res.put("violation", vj);
+        res.put("unconfirmed_violations", J::u(unconfirmed.len()));
+        res.put("harness_error", J::s("violation(s) did not reproduce in a fresh process, even behind the full scenario history of the shard"));
+        code = 2;
     }
     res.put("wall_s", J::Num(t0.elapsed().as_secs_f64()));
     if let Err(e) = std::fs::write(&out, res.to_string()) {
